@@ -2,6 +2,7 @@ package checks
 
 import (
 	"bytes"
+	"encoding/hex"
 	"fmt"
 	"go/ast"
 	"go/parser"
@@ -691,6 +692,65 @@ func c03Worker(c *core.Collector, x *Ctx) {
 		}
 	}
 	var parsedOK atomic.Int64
+	// a long-lived process: while everything else runs, one goroutine decodes a malformed and a well-formed JT1078 packet and a
+	// malformed and a well-formed JT808 frame every 100 ms for 11.5 s of real time, under the same watchdog: whatever a decoder
+	// keeps between calls in package state and consults the clock about (rate-limited diagnostics, caches with an expiry) is past
+	// its first periods by the end. The outcome of every call must be the one the first call had.
+	longLived := make(chan struct{})
+	go func() {
+		defer close(longLived)
+		si := int(slotIx.Add(1)-1) % len(slots)
+		good1078, _ := hex.DecodeString("3031636481e2000000000000000110010000018cf9f7ad6000000000000400000001")
+		bad1078 := append([]byte{0x30, 0x31, 0x63, 0x65}, good1078[4:]...)
+		goodFrame := ref.Build(ref.Params{ID: 0x0002, BCD: []byte{1, 0x38, 0, 0x13, 0x80, 0}, Serial: 7})
+		badFrame := append([]byte{}, goodFrame...)
+		badFrame[len(badFrame)-2] ^= 0x55
+		if badFrame[len(badFrame)-2] == 0x7e || badFrame[len(badFrame)-2] == 0x7d {
+			badFrame[len(badFrame)-2] = 0x11
+		}
+		outcome := func(k int) string {
+			switch k {
+			case 0, 1:
+				p := jt1078.NewPacket()
+				in := good1078
+				if k == 1 {
+					in = bad1078
+				}
+				rest, err := p.Decode(append([]byte{}, in...))
+				return fmt.Sprintf("%d/%v/%v", len(rest), err, p.String())
+			default:
+				m := jt808.NewJTMessage()
+				in := goodFrame
+				if k == 3 {
+					in = badFrame
+				}
+				err := m.Decode(append([]byte{}, in...))
+				return fmt.Sprintf("%v/%x", err, m.Body)
+			}
+		}
+		names := []string{"jt1078.Decode", "jt1078.Decode", "jt808.Decode", "jt808.Decode"}
+		var first [4]string
+		t0 := time.Now()
+		for round := 0; time.Since(t0) < 11500*time.Millisecond; round++ {
+			for k := 0; k < 4; k++ {
+				in := [][]byte{good1078, bad1078, goodFrame, badFrame}[k]
+				slots[si].desc.Store(c03Case{Kind: "c03", Target: names[k], Input: core.Hex(in), Gen: fmt.Sprintf("long-lived process: call %d, %.1f s after the first", round, time.Since(t0).Seconds())})
+				slots[si].start.Store(time.Now().UnixNano())
+				o := outcome(k)
+				slots[si].start.Store(0)
+				c.Eval()
+				if round == 0 {
+					first[k] = o
+				} else if o != first[k] {
+					c.Violate("pure|"+names[k]+"|the same bytes decode differently later in the life of the process", fmt.Sprintf("first call: %s; call %d, %.1f s later: %s", first[k], round, time.Since(t0).Seconds(), o),
+						c03Case{Kind: "c03", Target: names[k], Input: core.Hex(in), Gen: "long-lived process"})
+					return
+				}
+			}
+			c.Count("decodes_in_the_long_lived_loop", 4)
+			time.Sleep(100 * time.Millisecond)
+		}
+	}()
 	core.ParallelFor(len(jobs), ncpu(), func(ji int) {
 		si := int(slotIx.Add(1)-1) % len(slots)
 		t := &targets[jobs[ji].ti]
@@ -964,6 +1024,7 @@ func c03Worker(c *core.Collector, x *Ctx) {
 			do(b, false, "random")
 		}
 	})
+	<-longLived
 	close(stopWatch)
 	// bodies beyond 65535 bytes (reassembled sub-packaged messages): consistent counts of tens of thousands of entries, whole and
 	// cut at a few dozen places, with 16-bit-boundary counts substituted
